@@ -289,6 +289,8 @@ impl DhtHandler {
                             (SocketAddr::V6(_), SocketAddr::V4(_)) => false,
                         }
                     })
+                    // Keep the reply within what the receive buffer of a peer can take.
+                    .take(max_values_in_reply(message.transaction_id.len(), addr.is_ipv6()))
                     .collect();
 
                 // Grab the closest nodes
@@ -609,6 +611,20 @@ impl DhtHandler {
         tx.send(self.routing_table.lock().unwrap().load_contacts())
             .unwrap_or(());
     }
+}
+
+/// Size of the receive buffer of every instance of this implementation (see `Socket::recv`).
+const MAX_DATAGRAM_LEN: usize = 1500;
+
+/// Upper bound on the size of a `get_peers` reply without its values and transaction id: the
+/// bencode framing, our id, a token and two full lists of eight nodes (IPv4 and IPv6).
+const REPLY_OVERHEAD_LEN: usize = 700;
+
+/// Number of peers that fit into a `get_peers` reply: a compact peer takes 8 bytes (IPv4) or 21
+/// bytes (IPv6) including its length prefix.
+fn max_values_in_reply(transaction_id_len: usize, ipv6: bool) -> usize {
+    let budget = MAX_DATAGRAM_LEN.saturating_sub(REPLY_OVERHEAD_LEN + transaction_id_len);
+    budget / if ipv6 { 21 } else { 8 }
 }
 
 // ----------------------------------------------------------------------------//
